@@ -145,3 +145,46 @@ def store_cells(E, row_loop, base_pred):
         if a.kind == 'store' and isinstance(a.ptr, Ptr) and isinstance(a.ptr.base, tuple) and a.ptr.base[:2] == ('phi', row_loop) and isinstance(a.value, Vec):
             out.append(a)
     return out
+
+
+def root_of(E, ptr, depth=0):
+    """Follow phi pointers to their initial value: returns (root Ptr, [(H, local, step lin)], total offset lin)."""
+    steps = []
+    off = dict(ptr.off)
+    p = ptr
+    for _ in range(6):
+        b = p.base
+        if isinstance(b, tuple) and b and b[0] == 'phi':
+            H, l = b[1], b[2]
+            ini = E.loops[H].carried.get(l)
+            st = ptr_update(E, H, l)
+            if not isinstance(ini, Ptr) or st is None:
+                return None, steps, off
+            steps.append((H, l, st))
+            for k, v in ini.off.items():
+                off[k] = off.get(k, 0) + v
+            p = ini
+        else:
+            break
+    # index-derived row steps (`base.add(j * stride)`): same meaning as a pointer bumped by `stride` in every iteration of loop H
+    for k in list(off):
+        if isinstance(k, str) and k.startswith('it#') and '*' in k:
+            H, atom = k[3:].split('*', 1)
+            steps.append((int(H), None, {atom: off.pop(k)}))
+    return p, steps, {k: v for k, v in off.items() if v != 0}
+
+
+def classify(base):
+    """ROW(matrix expr) | SLICE(param) | LOCAL | OTHER."""
+    if isinstance(base, tuple) and base and base[0] == 'slice':
+        inner = base[1]
+        if isinstance(inner, tuple) and inner and inner[0] == 'call' and inner[1].endswith(('::index', '::index_mut')):
+            return ('ROW', inner[2][0], inner[2][1])
+        if isinstance(inner, tuple) and inner and inner[0] == 'p':
+            return ('SLICE', inner[1])
+        return ('OTHER', inner)
+    if isinstance(base, tuple) and base and base[0] == 'local':
+        return ('LOCAL', base[1])
+    return ('OTHER', base)
+
+
